@@ -3,22 +3,16 @@ Require Import Bytes BytesLemmas RouterModel.
 Import ListNotations.
 
 (* ---------- the specification of "pattern matches path" ---------- *)
-(* every segment kind consumes exactly one path segment; an optional may be absent only when
-   the path is exhausted; parameters (incl. present optionals) and splats are bound to the
-   segment they consume, in path order *)
-Fixpoint match_pat (p : pattern) (path : list bytes) : option (binds * list bytes) :=
-  match p, path with
-  | [], [] => Some ([], [])
-  | Fixed s :: p', v :: path' => if bytes_eqb v s then match_pat p' path' else None
-  | Param n :: p', v :: path' =>
-      match match_pat p' path' with Some (b, s) => Some ((n, v) :: b, s) | None => None end
-  | Opt n :: p', v :: path' =>
-      match match_pat p' path' with Some (b, s) => Some ((n, v) :: b, s) | None => None end
-  | Opt n :: p', [] => match_pat p' []
-  | Splat :: p', v :: path' =>
-      match match_pat p' path' with Some (b, s) => Some (b, v :: s) | None => None end
-  | _, _ => None
-  end.
+(* a fixed segment, a parameter and a wildcard each consume exactly one path segment; an optional parameter consumes one
+   or is absent (anywhere in the pattern); parameters (incl. present optionals) and wildcards are bound to the segment
+   they consume, in path order *)
+Inductive matches : pattern -> list bytes -> binds -> list bytes -> Prop :=
+| M_nil : matches [] [] [] []
+| M_fixed t p v path b s : bytes_eqb v t = true -> matches p path b s -> matches (Fixed t :: p) (v :: path) b s
+| M_param n p v path b s : matches p path b s -> matches (Param n :: p) (v :: path) ((n, v) :: b) s
+| M_opt_present n p v path b s : matches p path b s -> matches (Opt n :: p) (v :: path) ((n, v) :: b) s
+| M_opt_absent n p path b s : matches p path b s -> matches (Opt n :: p) path b s
+| M_splat p v path b s : matches p path b s -> matches (Splat :: p) (v :: path) b (v :: s).
 
 (* ---------- derivatives ---------- *)
 Lemma in_d_fixed s n p h : In (p, h) (d_fixed s n) <-> In (Fixed s :: p, h) n.
@@ -125,80 +119,75 @@ Qed.
 
 (* ---------- soundness: what is found is a registered route that matches, with exactly the
    bindings the pattern prescribes ---------- *)
-Lemma end_route_sound : forall fuel n ps ss h ps' ss',
-  end_route fuel n ps ss = Some (h, ps', ss') ->
-  exists p, In (p, h) n /\ match_pat p [] = Some ([], []) /\ ps' = ps /\ ss' = ss.
-Proof.
-  induction fuel as [|f IH]; intros n ps ss h ps' ss' H; cbn [end_route] in H.
-  - destruct (route_of n) as [h0|] eqn:E; [|discriminate]. inversion H; subst.
-    exists []. split; [apply route_of_in; exact E|]. auto.
-  - destruct (route_of n) as [h0|] eqn:E.
-    + inversion H; subst. exists []. split; [apply route_of_in; exact E|]. auto.
-    + apply first_some_in in H. destruct H as [name [_ Hr]].
-      destruct (IH _ _ _ _ _ _ Hr) as [p [Hin [Hm [-> ->]]]].
-      exists (Opt name :: p). split; [apply in_d_opt; exact Hin|]. cbn. auto.
-Qed.
+Lemma find_route_f_nil f n ps ss :
+  find_route_f (S f) [] n ps ss =
+  match route_of n with
+  | Some h => Some (h, ps, ss)
+  | None => first_some (fun name => find_route_f f [] (d_opt name n) ps ss) (opt_names n)
+  end.
+Proof. reflexivity. Qed.
 
-Lemma find_route_cons v rest n ps ss :
-  find_route (v :: rest) n ps ss =
-  match (match d_fixed v n with [] => None | _ :: _ => find_route rest (d_fixed v n) ps ss end) with
+Lemma find_route_f_cons f v rest n ps ss :
+  find_route_f (S f) (v :: rest) n ps ss =
+  match (match d_fixed v n with [] => None | _ :: _ => find_route_f f rest (d_fixed v n) ps ss end) with
   | Some r => Some r
   | None =>
-    match first_some (fun name => find_route rest (d_param name n) (ps ++ [(name, v)]) ss) (param_names n) with
+    match first_some (fun name => find_route_f f rest (d_param name n) (ps ++ [(name, v)]) ss) (param_names n) with
     | Some r => Some r
     | None =>
-      match first_some (fun name => find_route rest (d_opt name n) (ps ++ [(name, v)]) ss) (opt_names n) with
+      match first_some (fun name => match find_route_f f rest (d_opt name n) (ps ++ [(name, v)]) ss with
+                                    | Some r => Some r | None => find_route_f f (v :: rest) (d_opt name n) ps ss end) (opt_names n) with
       | Some r => Some r
-      | None => match d_splat n with [] => None | _ :: _ => find_route rest (d_splat n) ps (ss ++ [v]) end
+      | None => match d_splat n with [] => None | _ :: _ => find_route_f f rest (d_splat n) ps (ss ++ [v]) end
       end
     end
   end.
-Proof. cbn [find_route]. destruct (d_fixed v n); destruct (d_splat n); reflexivity. Qed.
+Proof. cbn [find_route_f]. destruct (d_fixed v n); destruct (d_splat n); reflexivity. Qed.
+
+Theorem find_route_f_sound : forall fuel path n ps ss h ps' ss',
+  find_route_f fuel path n ps ss = Some (h, ps', ss') ->
+  exists p b s, In (p, h) n /\ matches p path b s /\ ps' = ps ++ b /\ ss' = ss ++ s.
+Proof.
+  induction fuel as [|f IH]; intros path n ps ss h ps' ss' H; [discriminate|].
+  destruct path as [|v rest]; [rewrite find_route_f_nil in H|rewrite find_route_f_cons in H].
+  - destruct (route_of n) as [h0|] eqn:E.
+    + inversion H; subst. exists [], [], []. rewrite !app_nil_r. split; [apply route_of_in; exact E|]. split; [constructor|auto].
+    + apply first_some_in in H. destruct H as [name [_ Hr]].
+      destruct (IH _ _ _ _ _ _ _ Hr) as [p [b [s [Hin [Hm [-> ->]]]]]].
+      exists (Opt name :: p), b, s. split; [apply in_d_opt; exact Hin|]. split; [apply M_opt_absent; exact Hm|auto].
+  - destruct (match d_fixed v n with [] => None | _ :: _ => find_route_f f rest (d_fixed v n) ps ss end) as [r|] eqn:E1.
+    { injection H as Hr0; subst r.
+      destruct (d_fixed v n) as [|e0 l0] eqn:Ed; [discriminate|]. rewrite <- Ed in E1.
+      destruct (IH _ _ _ _ _ _ _ E1) as [p [b [s [Hin [Hm [-> ->]]]]]].
+      exists (Fixed v :: p), b, s. split; [apply in_d_fixed; exact Hin|]. split; [apply M_fixed; [apply bytes_eqb_refl|exact Hm]|auto]. }
+    destruct (first_some (fun name => find_route_f f rest (d_param name n) (ps ++ [(name, v)]) ss) (param_names n)) as [r|] eqn:E2.
+    { injection H as Hr0; subst r. apply first_some_in in E2. destruct E2 as [name [_ Hr]].
+      destruct (IH _ _ _ _ _ _ _ Hr) as [p [b [s [Hin [Hm [-> ->]]]]]].
+      exists (Param name :: p), ((name, v) :: b), s. split; [apply in_d_param; exact Hin|].
+      split; [apply M_param; exact Hm|]. rewrite <- app_assoc. auto. }
+    destruct (first_some (fun name => match find_route_f f rest (d_opt name n) (ps ++ [(name, v)]) ss with
+                                      | Some r => Some r | None => find_route_f f (v :: rest) (d_opt name n) ps ss end) (opt_names n)) as [r|] eqn:E3.
+    { injection H as Hr0; subst r. apply first_some_in in E3. destruct E3 as [name [_ Hr]].
+      destruct (find_route_f f rest (d_opt name n) (ps ++ [(name, v)]) ss) as [r1|] eqn:Ep.
+      - injection Hr as Hr0; subst r1.
+        destruct (IH _ _ _ _ _ _ _ Ep) as [p [b [s [Hin [Hm [-> ->]]]]]].
+        exists (Opt name :: p), ((name, v) :: b), s. split; [apply in_d_opt; exact Hin|].
+        split; [apply M_opt_present; exact Hm|]. rewrite <- app_assoc. auto.
+      - destruct (IH _ _ _ _ _ _ _ Hr) as [p [b [s [Hin [Hm [-> ->]]]]]].
+        exists (Opt name :: p), b, s. split; [apply in_d_opt; exact Hin|]. split; [apply M_opt_absent; exact Hm|auto]. }
+    destruct (d_splat n) as [|e0 l0] eqn:Ed; [discriminate|]. rewrite <- Ed in H.
+    destruct (IH _ _ _ _ _ _ _ H) as [p [b [s [Hin [Hm [-> ->]]]]]].
+    exists (Splat :: p), b, (v :: s). split; [apply in_d_splat; exact Hin|].
+    split; [apply M_splat; exact Hm|]. rewrite <- app_assoc. auto.
+Qed.
 
 Theorem find_route_sound : forall path n ps ss h ps' ss',
   find_route path n ps ss = Some (h, ps', ss') ->
-  exists p b s, In (p, h) n /\ match_pat p path = Some (b, s) /\ ps' = ps ++ b /\ ss' = ss ++ s.
-Proof.
-  induction path as [|v rest IH]; intros n ps ss h ps' ss' H.
-  - cbn [find_route] in H. destruct (end_route_sound _ _ _ _ _ _ _ H) as [p [Hin [Hm [-> ->]]]].
-    exists p, [], []. rewrite !app_nil_r. auto.
-  - rewrite find_route_cons in H.
-    destruct (match d_fixed v n with [] => None | _ :: _ => find_route rest (d_fixed v n) ps ss end) as [r|] eqn:E1.
-    { injection H as Hr0; subst r. destruct (d_fixed v n) as [|e0 l0] eqn:Ed; [discriminate|]. rewrite <- Ed in E1.
-      destruct (IH _ _ _ _ _ _ E1) as [p [b [s [Hin [Hm [-> ->]]]]]].
-      exists (Fixed v :: p), b, s. split; [apply in_d_fixed; exact Hin|]. cbn. rewrite bytes_eqb_refl. auto. }
-    destruct (first_some (fun name => find_route rest (d_param name n) (ps ++ [(name, v)]) ss) (param_names n)) as [r|] eqn:E2.
-    { injection H as Hr0; subst r. apply first_some_in in E2. destruct E2 as [name [_ Hr]].
-      destruct (IH _ _ _ _ _ _ Hr) as [p [b [s [Hin [Hm [-> ->]]]]]].
-      exists (Param name :: p), ((name, v) :: b), s. split; [apply in_d_param; exact Hin|].
-      cbn. rewrite Hm. rewrite <- app_assoc. auto. }
-    destruct (first_some (fun name => find_route rest (d_opt name n) (ps ++ [(name, v)]) ss) (opt_names n)) as [r|] eqn:E3.
-    { injection H as Hr0; subst r. apply first_some_in in E3. destruct E3 as [name [_ Hr]].
-      destruct (IH _ _ _ _ _ _ Hr) as [p [b [s [Hin [Hm [-> ->]]]]]].
-      exists (Opt name :: p), ((name, v) :: b), s. split; [apply in_d_opt; exact Hin|].
-      cbn. rewrite Hm. rewrite <- app_assoc. auto. }
-    destruct (d_splat n) as [|e0 l0] eqn:Ed; [discriminate|]. rewrite <- Ed in H.
-    destruct (IH _ _ _ _ _ _ H) as [p [b [s [Hin [Hm [-> ->]]]]]].
-    exists (Splat :: p), b, (v :: s). split; [apply in_d_splat; exact Hin|].
-    cbn. rewrite Hm. rewrite <- app_assoc. auto.
-Qed.
+  exists p b s, In (p, h) n /\ matches p path b s /\ ps' = ps ++ b /\ ss' = ss ++ s.
+Proof. intros path n ps ss h ps' ss'. apply find_route_f_sound. Qed.
 
 (* ---------- completeness: if a registered route matches, a route is found (backtracking
-   explores every alternative) ---------- *)
-Lemma end_route_complete : forall p fuel n ps ss h b s,
-  In (p, h) n -> match_pat p [] = Some (b, s) -> length p <= fuel ->
-  end_route fuel n ps ss <> None.
-Proof.
-  induction p as [|x p IH]; intros fuel n ps ss h b s Hin Hm Hl.
-  - destruct (route_of_some n h Hin) as [h' Hr]. destruct fuel; cbn [end_route]; rewrite Hr; discriminate.
-  - destruct x as [t|t|t|]; cbn in Hm; try discriminate.
-    destruct fuel as [|f]; [cbn in Hl; lia|]. cbn [end_route].
-    destruct (route_of n); [discriminate|].
-    apply (first_some_ex _ _ t).
-    + eapply opt_names_complete. exact Hin.
-    + apply (IH f (d_opt t n) ps ss h b s); [apply in_d_opt; exact Hin|exact Hm|cbn in Hl; lia].
-Qed.
-
+   explores every alternative, an absent optional included) ---------- *)
 Lemma fold_max_ge : forall (l : list (pattern * N)) m,
   m <= fold_left (fun m (e : pattern * N) => Nat.max m (length (fst e))) l m.
 Proof.
@@ -215,31 +204,52 @@ Proof.
   - apply IH. exact Hin.
 Qed.
 
-Theorem find_route_complete : forall path n ps ss p h b s,
-  In (p, h) n -> match_pat p path = Some (b, s) -> find_route path n ps ss <> None.
+Theorem find_route_f_complete : forall p path b s, matches p path b s ->
+  forall fuel n h ps ss, In (p, h) n -> length p + length path < fuel -> find_route_f fuel path n ps ss <> None.
 Proof.
-  induction path as [|v rest IH]; intros n ps ss p h b s Hin Hm.
-  - cbn [find_route]. apply (end_route_complete p _ n ps ss h b s Hin Hm).
-    pose proof (max_len_ge n p h Hin). lia.
-  - rewrite find_route_cons.
-    destruct (match d_fixed v n with [] => None | _ :: _ => find_route rest (d_fixed v n) ps ss end) eqn:E1; [discriminate|].
-    destruct (first_some (fun name => find_route rest (d_param name n) (ps ++ [(name, v)]) ss) (param_names n)) eqn:E2; [discriminate|].
-    destruct (first_some (fun name => find_route rest (d_opt name n) (ps ++ [(name, v)]) ss) (opt_names n)) eqn:E3; [discriminate|].
-    destruct p as [|[t|t|t|] p]; cbn in Hm; try discriminate.
-    + destruct (bytes_eqb v t) eqn:Ev; [|discriminate]. apply bytes_eqb_eq in Ev. subst t.
-      exfalso. assert (Hc : In (p, h) (d_fixed v n)) by (apply in_d_fixed; exact Hin).
-      destruct (d_fixed v n) as [|e0 l0] eqn:Ed; [contradiction|]. rewrite <- Ed in *.
-      apply (IH _ ps ss _ _ _ _ Hc Hm). exact E1.
-    + destruct (match_pat p rest) as [[b' s']|] eqn:Em; [|discriminate].
-      exfalso. revert E2. apply (first_some_ex _ _ t); [eapply param_names_complete; exact Hin|].
-      apply (IH _ _ ss p h b' s'); [apply in_d_param; exact Hin|exact Em].
-    + destruct (match_pat p rest) as [[b' s']|] eqn:Em; [|discriminate].
-      exfalso. revert E3. apply (first_some_ex _ _ t); [eapply opt_names_complete; exact Hin|].
-      apply (IH _ _ ss p h b' s'); [apply in_d_opt; exact Hin|exact Em].
-    + destruct (match_pat p rest) as [[b' s']|] eqn:Em; [|discriminate].
-      assert (Hc : In (p, h) (d_splat n)) by (apply in_d_splat; exact Hin).
-      destruct (d_splat n) as [|e0 l0] eqn:Ed; [contradiction|]. rewrite <- Ed in *.
-      apply (IH _ ps (ss ++ [v]) p h b' s' Hc Em).
+  induction 1 as [|t p v path b s Hv Hm IH|nm p v path b s Hm IH|nm p v path b s Hm IH|nm p path b s Hm IH|p v path b s Hm IH];
+    intros fuel n h ps ss Hin Hl; (destruct fuel as [|f]; [cbn in Hl; lia|]); rewrite ?find_route_f_nil, ?find_route_f_cons.
+  - destruct (route_of_some n h Hin) as [h' Hr]. rewrite Hr. discriminate.
+  - apply bytes_eqb_eq in Hv. subst t.
+    assert (Hc : In (p, h) (d_fixed v n)) by (apply in_d_fixed; exact Hin).
+    destruct (d_fixed v n) as [|e0 l0] eqn:Ed; [contradiction|]. rewrite <- Ed in *.
+    destruct (find_route_f f path (d_fixed v n) ps ss) eqn:E1; [discriminate|].
+    exfalso. revert E1. apply (IH f _ h); [exact Hc|cbn in Hl; lia].
+  - destruct (match d_fixed v n with [] => None | _ :: _ => find_route_f f path (d_fixed v n) ps ss end); [discriminate|].
+    destruct (first_some (fun name => find_route_f f path (d_param name n) (ps ++ [(name, v)]) ss) (param_names n)) eqn:E2; [discriminate|].
+    exfalso. revert E2. apply (first_some_ex _ _ nm); [eapply param_names_complete; exact Hin|].
+    apply (IH f _ h); [apply in_d_param; exact Hin|cbn in Hl; lia].
+  - destruct (match d_fixed v n with [] => None | _ :: _ => find_route_f f path (d_fixed v n) ps ss end); [discriminate|].
+    destruct (first_some (fun name => find_route_f f path (d_param name n) (ps ++ [(name, v)]) ss) (param_names n)); [discriminate|].
+    match goal with |- match first_some ?g ?l with _ => _ end <> None => destruct (first_some g l) eqn:E3 end; [discriminate|].
+    exfalso. revert E3. apply (first_some_ex _ _ nm); [eapply opt_names_complete; exact Hin|].
+    destruct (find_route_f f path (d_opt nm n) (ps ++ [(nm, v)]) ss) eqn:Ep; [discriminate|].
+    exfalso. revert Ep. apply (IH f _ h); [apply in_d_opt; exact Hin|cbn in Hl; lia].
+  - (* the optional parameter is absent *)
+    destruct path as [|v rest]; [rewrite find_route_f_nil|rewrite find_route_f_cons].
+    + destruct (route_of n); [discriminate|].
+      apply (first_some_ex _ _ nm); [eapply opt_names_complete; exact Hin|].
+      apply (IH f _ h); [apply in_d_opt; exact Hin|cbn in Hl; cbn; lia].
+    + destruct (match d_fixed v n with [] => None | _ :: _ => find_route_f f rest (d_fixed v n) ps ss end); [discriminate|].
+      destruct (first_some (fun name => find_route_f f rest (d_param name n) (ps ++ [(name, v)]) ss) (param_names n)); [discriminate|].
+      match goal with |- match first_some ?g ?l with _ => _ end <> None => destruct (first_some g l) eqn:E3 end; [discriminate|].
+      exfalso. revert E3. apply (first_some_ex _ _ nm); [eapply opt_names_complete; exact Hin|].
+      destruct (find_route_f f rest (d_opt nm n) (ps ++ [(nm, v)]) ss); [discriminate|].
+      apply (IH f _ h); [apply in_d_opt; exact Hin|cbn in Hl; cbn; lia].
+  - destruct (match d_fixed v n with [] => None | _ :: _ => find_route_f f path (d_fixed v n) ps ss end); [discriminate|].
+    destruct (first_some (fun name => find_route_f f path (d_param name n) (ps ++ [(name, v)]) ss) (param_names n)); [discriminate|].
+    match goal with |- match first_some ?g ?l with _ => _ end <> None => destruct (first_some g l) end; [discriminate|].
+    assert (Hc : In (p, h) (d_splat n)) by (apply in_d_splat; exact Hin).
+    destruct (d_splat n) as [|e0 l0] eqn:Ed; [contradiction|]. rewrite <- Ed in *.
+    apply (IH f _ h); [exact Hc|cbn in Hl; lia].
+Qed.
+
+Theorem find_route_complete : forall path n ps ss p h b s,
+  In (p, h) n -> matches p path b s -> find_route path n ps ss <> None.
+Proof.
+  intros path n ps ss p h b s Hin Hm. unfold find_route.
+  apply (find_route_f_complete p path b s Hm _ n h); [exact Hin|].
+  pose proof (max_len_ge n p h Hin). lia.
 Qed.
 
 (* ---------- sanitising ---------- *)
